@@ -4,12 +4,12 @@
 (* predicate on numbers: the number N stands for "every number that is no   *)
 (* id of the registry" (|_| true accepts those too).                        *)
 EXTENDS Retain, Shapes, Json
-CONSTANTS N, MaxKids
+CONSTANTS N, MaxKids, WithOutside
 Ids == 0..(N-1)
 KidSeqs == UNION {[1..k -> Ids] : k \in 0..MaxKids}
 Sel(t, ks) == t + (IF Len(ks) >= 1 THEN ks[1] ELSE 0) + (IF Len(ks) >= 2 THEN 2 * ks[2] ELSE 0)
 RegOf(kids) == [p \in 1..N |-> WithId(ShapeBody(p-1, kids[p-1], Sel(p-1, kids[p-1])), p-1)]
-Init == \E kids \in [Ids -> KidSeqs] : \E k \in SUBSET (Ids \cup {N}) : TInitWith(RegOf(kids), k)
+Init == \E kids \in [Ids -> KidSeqs] : \E k \in SUBSET (Ids \cup (IF WithOutside THEN {N} ELSE {})) : TInitWith(RegOf(kids), k)
 Spec == Init /\ [][RNext]_tvars /\ WF_tvars(RNext)
 Pairs(m) == SetToSeq({<<i, m[i]>> : i \in DOMAIN m})
 Emit == Done => PrintT(<<"REPLAY", ToJson([old |-> orig, keep |-> [i \in 1..N |-> (i-1) \in keep], outside |-> N \in keep, map |-> Pairs(rmap), new |-> newT])>>)
